@@ -3,7 +3,7 @@ import numpy as np
 import nets
 
 PID = "C19"
-THEOREMS = ["split_chain", "pieces_def", "swalk_spec", "links_once", "cut_piece_bound", "streams_piece_bound", "flwdir_tuples_spec", "feature_props_spec", "gen_flwdir_tuples_eq", "gen_streams_eq"]
+THEOREMS = ["split_chain", "pieces_def", "swalk_spec", "links_once", "cut_piece_bound", "streams_piece_bound", "flwdir_tuples_spec", "feature_props_spec", "gen_flwdir_tuples_eq", "gen_streams_eq", "gen_segment_indices_partial", "gen_segment_indices_topo", "segment_indices_links_maxlen"]
 RULE = ("loop-free closed graphs on n<=5 cells (n<=6 thorough) x downstream-closed masks x max_len 0..5 through "
         "streams.streams; long chains (up to 40 vertices) x max_len 1..12 for the cutting rule; random forests; "
         "FlwdirRaster.streams (mask / min_sto / custom xs, ys / extra maps) and vectorize on random rasters with "
